@@ -42,9 +42,9 @@ def main(tier, seed, replay=None):
         c["ops"] = states.observe_at(rng, c, nsets=1)
         cases.append(c)
     # five to seven nonlinear parameters (beyond any small block size), all four constructors
-    for j in range(6 if tier == "quick" else 96):
+    for j in range(6 if tier == "quick" else 36):
         # (small dyadic model values and few samples in the quick tier: seven exact projections per state are expensive)
-        c = gen_problem(rng, family=["p5", "p6", "p7"][j % 3], quant=(8 if j % 4 or tier == "quick" else None), builder_made=(j % 5 == 1),
+        c = gen_problem(rng, family=["p5", "p6", "p7"][j % 3], quant=(8 if j % 12 or tier == "quick" else None), builder_made=(j % 5 == 1),
                         ctor=["new_parallel", "mrhs_parallel", "new", "mrhs_parallel"][j % 4], scalar=("f32" if j % 7 == 6 else "f64"),
                         S=(2 if j % 2 else None), N=([6, 7, 8][j % 3] if tier == "quick" else None))
         c["ops"] = states.observe_at(rng, c, nsets=1)
